@@ -159,4 +159,484 @@ Section C14.
       eexists. split; [eapply trk_ready; [exact H3|exact K2|cbn; lia]|].
       destruct r; cbn; repeat split; auto; lia.
   Qed.
+
+  Lemma next_request_loop_not_err f s a s' : next_request_loop f s <> (PErr a, s').
+  Proof.
+    revert s; induction f as [|f IH]; intro s; cbn [next_request_loop]; [discriminate|].
+    destruct (q_poll_recv s) as [[q| |] s1]; try discriminate.
+    destruct (sl_rx_closed _); [apply IH|discriminate].
+  Qed.
+  Lemma next_cancel_loop_not_err f s a s' : next_cancel_loop f s <> (PErr a, s').
+  Proof.
+    revert s; induction f as [|f IH]; intro s; cbn [next_cancel_loop]; [discriminate|].
+    destruct (c_poll_recv s) as [[q| |] s1]; try discriminate.
+    destruct (cancel_request s1 q) as [[e|] s2]; [discriminate|apply IH].
+  Qed.
+
+  Lemma pwrq_c14 s r s' c0 c :
+    poll_write_request tp s = (r, s') -> Trk c0 s c -> PI c s -> (streak c + 3 <= 8)%nat ->
+    exists c', Trk c0 s' c' /\ closed c' = closed c /\ (streak c' <= streak c + 3)%nat /\
+      match r with PErr _ => failed c' = true | _ => PI c' s' end /\
+      (r = PNone -> queue s' = []).
+  Proof.
+    intros H K P HS. pose proof (pi_failed _ _ P) as HF. apply poll_write_request_inv in H.
+    destruct H as [_|r s1 _ H1 Hr|r s1 s2 _ H1 H2 Hr|s1 q s2 w s3 _ H1 H2 H3].
+    - exists c. repeat split; try apply P; auto; try lia. discriminate.
+    - destruct (ew_c14 _ _ _ _ _ H1 K HF HS) as (c1 & K1 & C1 & S1 & R1).
+      apply XFrame_ensure_writeable in H1.
+      exists c1. split; [exact K1|]. split; [exact C1|]. split; [exact S1|].
+      destruct r as [u| | |a]; cbn [pcast]; try discriminate; try contradiction.
+      + split; [|discriminate]. constructor; [exact R1|]. rewrite C1. intro HC.
+        eapply Quiet_X; [exact H1|]. apply P, HC.
+      + split; [exact R1|discriminate].
+    - destruct (ew_c14 _ _ _ _ _ H1 K HF HS) as (c1 & K1 & C1 & S1 & L1 & F1).
+      apply XFrame_ensure_writeable in H1.
+      pose proof (IFrame_next_request_loop (S (length (queue s1))) s1) as F2.
+      rewrite H2 in F2. cbn [snd] in F2.
+      exists c1. split; [eapply trk_I; eassumption|]. split; [exact C1|]. split; [exact S1|].
+      assert (P2 : PI c1 s2).
+      { constructor; [exact F1|]. rewrite C1. intro HC.
+        assert (Q1 : Quiet s1) by (eapply Quiet_X; [exact H1|]; apply P, HC).
+        destruct (quiet_next_request_loop _ _ _ _ Q1 H2) as [-> _]. exact Q1. }
+      destruct r as [u| | |a]; cbn [pcast]; try discriminate.
+      + split; [exact P2|]. intros _. eapply next_request_loop_none, H2.
+      + split; [exact P2|discriminate].
+      + exfalso. eapply next_request_loop_not_err, H2.
+    - destruct (ew_c14 _ _ _ _ _ H1 K HF HS) as (c1 & K1 & C1 & S1 & L1 & F1).
+      apply XFrame_ensure_writeable in H1.
+      pose proof (IFrame_next_request_loop (S (length (queue s1))) s1) as F2.
+      rewrite H2 in F2. cbn [snd] in F2.
+      assert (HC : closed c1 = false).
+      { destruct (closed c1) eqn:HC; [|reflexivity]. exfalso.
+        assert (Q1 : Quiet s1) by (eapply Quiet_X; [exact H1|]; apply P; congruence).
+        destruct (quiet_next_request_loop _ _ _ _ Q1 H2) as [_ X]. discriminate. }
+      assert (K2 : Trk c0 (insert_request s2 q) c1).
+      { eapply trk_T; [apply TFrame_insert_request|]. eapply trk_I; eassumption. }
+      pose proof (trk_send _ _ _ _ _ _ H3 K2 L1 HC F1) as K3.
+      eexists. split.
+      { destruct w; [exact K3|]. eapply trk_T; [apply TFrame_complete_request|exact K3]. }
+      cbn [c_step snd closed streak failed].
+      split; [congruence|]. split; [lia|]. split; [|discriminate].
+      constructor; cbn [closed failed]; [|congruence].
+      destruct w; [exact F1|]. rewrite F1. reflexivity.
+  Qed.
+
+  Lemma pwc_c14 s r s' c0 c :
+    poll_write_cancel tp s = (r, s') -> Trk c0 s c -> PI c s -> (streak c + 3 <= 8)%nat ->
+    exists c', Trk c0 s' c' /\ closed c' = closed c /\ (streak c' <= streak c + 3)%nat /\
+      match r with PErr _ => failed c' = true | _ => PI c' s' end /\
+      queue s' = queue s /\
+      (r = PNone -> cancels s' = [] /\ senders s' = 0%nat).
+  Proof.
+    intros H K P HS. pose proof (pi_failed _ _ P) as HF. apply poll_write_cancel_inv in H.
+    destruct H as [r s1 H1 Hr|r s1 s2 H1 H2 Hr|s1 id e s2 w s3 H1 H2 H3].
+    - destruct (ew_c14 _ _ _ _ _ H1 K HF HS) as (c1 & K1 & C1 & S1 & R1).
+      apply XFrame_ensure_writeable in H1.
+      exists c1. split; [exact K1|]. split; [exact C1|]. split; [exact S1|].
+      destruct r as [u| | |a]; cbn [pcast]; try discriminate; try contradiction.
+      + split; [|split; [apply H1|discriminate]]. constructor; [exact R1|]. rewrite C1. intro HC.
+        eapply Quiet_X; [exact H1|]. apply P, HC.
+      + split; [exact R1|]. split; [apply H1|discriminate].
+    - destruct (ew_c14 _ _ _ _ _ H1 K HF HS) as (c1 & K1 & C1 & S1 & L1 & F1).
+      apply XFrame_ensure_writeable in H1.
+      pose proof (CFrame_next_cancel_loop (S (length (cancels s1))) s1) as F2.
+      rewrite H2 in F2. cbn [snd] in F2.
+      exists c1. split; [eapply trk_I; [apply F2|eassumption]|]. split; [exact C1|].
+      split; [exact S1|].
+      assert (P2 : PI c1 s2).
+      { constructor; [exact F1|]. rewrite C1. intro HC.
+        assert (Q1 : Quiet s1) by (eapply Quiet_X; [exact H1|]; apply P, HC).
+        destruct (quiet_next_cancel_loop _ _ _ _ Q1 H2) as [-> _]. exact Q1. }
+      assert (HQ : queue s2 = queue s) by (rewrite (cf_queue _ _ F2); apply H1).
+      destruct r as [u| | |a]; cbn [pcast]; try discriminate.
+      + split; [exact P2|]. split; [exact HQ|]. intros _. eapply next_cancel_loop_none, H2.
+      + split; [exact P2|]. split; [exact HQ|discriminate].
+      + exfalso. eapply next_cancel_loop_not_err, H2.
+    - destruct (ew_c14 _ _ _ _ _ H1 K HF HS) as (c1 & K1 & C1 & S1 & L1 & F1).
+      apply XFrame_ensure_writeable in H1.
+      pose proof (CFrame_next_cancel_loop (S (length (cancels s1))) s1) as F2.
+      rewrite H2 in F2. cbn [snd] in F2.
+      assert (HC : closed c1 = false).
+      { destruct (closed c1) eqn:HC; [|reflexivity]. exfalso.
+        assert (Q1 : Quiet s1) by (eapply Quiet_X; [exact H1|]; apply P; congruence).
+        destruct (quiet_next_cancel_loop _ _ _ _ Q1 H2) as [_ X]. discriminate. }
+      assert (K2 : Trk c0 s2 c1) by (eapply trk_I; [apply F2|eassumption]).
+      pose proof (trk_send _ _ _ _ _ _ H3 K2 L1 HC F1) as K3.
+      eexists. split; [exact K3|].
+      cbn [c_step snd closed streak failed].
+      split; [congruence|]. split; [lia|].
+      assert (HQ : queue s3 = queue s).
+      { rewrite (xf_queue _ _ (XFrame_do_send _ _ _ _ _ H3)), (cf_queue _ _ F2). apply H1. }
+      destruct w.
+      + split; [|split; [exact HQ|discriminate]].
+        constructor; cbn [closed failed]; [exact F1|congruence].
+      + split; [|split; [exact HQ|discriminate]].
+        cbn [fatal_cancel]. apply orb_true_r.
+  Qed.
+
+  Lemma pw_c14 s r s' c0 c :
+    pump_write tp s = (r, s') -> Trk c0 s c -> PI c s -> streak c = 0%nat ->
+    exists c', Trk c0 s' c' /\
+      match r with
+      | PErr _ => failed c' = true
+      | PSome _ => PI c' s'
+      | PPend => PI c' s' /\ (dirty c' = false \/ last_flush_pending c' = true)
+      | PNone => PI c' s' /\ dirty c' = false
+      end.
+  Proof.
+    intros H K P HS. apply pump_write_inv in H.
+    destruct H as [a s1 H1|u s1 H1|r1 s1 a s2 H1 I1 H2|r1 s1 u s2 H1 I1 H2
+                  |r1 s1 r2 s2 id s3 H1 I1 H2 I2 H3|s1 s2 s3 x s4 H1 H2 H3 H4
+                  |r1 s1 r2 s2 s3 x s4 H1 I1 H2 I2 I12 H3 H4].
+    - destruct (pwrq_c14 _ _ _ _ _ H1 K P ltac:(lia)) as (c1 & K1 & _ & _ & R1 & _). eauto.
+    - destruct (pwrq_c14 _ _ _ _ _ H1 K P ltac:(lia)) as (c1 & K1 & _ & _ & R1 & _). eauto.
+    - destruct (pwrq_c14 _ _ _ _ _ H1 K P ltac:(lia)) as (c1 & K1 & _ & S1 & R1 & _).
+      assert (P1 : PI c1 s1) by (destruct I1 as [-> | ->]; exact R1).
+      destruct (pwc_c14 _ _ _ _ _ H2 K1 P1 ltac:(lia)) as (c2 & K2 & _ & _ & R2 & _). eauto.
+    - destruct (pwrq_c14 _ _ _ _ _ H1 K P ltac:(lia)) as (c1 & K1 & _ & S1 & R1 & _).
+      assert (P1 : PI c1 s1) by (destruct I1 as [-> | ->]; exact R1).
+      destruct (pwc_c14 _ _ _ _ _ H2 K1 P1 ltac:(lia)) as (c2 & K2 & _ & _ & R2 & _). eauto.
+    - destruct (pwrq_c14 _ _ _ _ _ H1 K P ltac:(lia)) as (c1 & K1 & _ & S1 & R1 & _).
+      assert (P1 : PI c1 s1) by (destruct I1 as [-> | ->]; exact R1).
+      destruct (pwc_c14 _ _ _ _ _ H2 K1 P1 ltac:(lia)) as (c2 & K2 & _ & _ & R2 & _).
+      assert (P2 : PI c2 s2) by (destruct I2 as [-> | ->]; exact R2).
+      pose proof (TFrame_poll_expired s2) as F3. rewrite H3 in F3. cbn [snd] in F3.
+      exists c2. split; [eapply trk_T; eassumption|eapply PI_T; eassumption].
+    - destruct (pwrq_c14 _ _ _ _ _ H1 K P ltac:(lia)) as (c1 & K1 & _ & S1 & P1 & Q1).
+      destruct (pwc_c14 _ _ _ _ _ H2 K1 P1 ltac:(lia)) as (c2 & K2 & _ & _ & P2 & Q2 & Q3).
+      pose proof (TFrame_poll_expired s2) as F3. rewrite H3 in F3. cbn [snd] in F3.
+      assert (QQ : Quiet s4).
+      { eapply Quiet_X; [eapply XFrame_do_close, H4|]. eapply Quiet_T; [exact F3|].
+        destruct (Q3 eq_refl) as [Q4 Q5]. split; [exact Q5|]. split; [|exact Q4].
+        rewrite Q2. apply Q1. reflexivity. }
+      pose proof (trk_close _ _ _ _ _ H4 (trk_T _ _ _ _ F3 K2)) as K4.
+      eexists. split; [exact K4|].
+      pose proof (pi_failed _ _ P2) as HF.
+      destruct x; cbn [close_res c_step snd failed dirty last_flush_pending closed].
+      + split; [|reflexivity]. constructor; cbn [failed closed]; auto.
+      + reflexivity.
+      + split; [|right; reflexivity]. constructor; cbn [failed closed]; auto.
+    - destruct (pwrq_c14 _ _ _ _ _ H1 K P ltac:(lia)) as (c1 & K1 & _ & S1 & R1 & _).
+      assert (P1 : PI c1 s1) by (destruct I1 as [-> | ->]; exact R1).
+      destruct (pwc_c14 _ _ _ _ _ H2 K1 P1 ltac:(lia)) as (c2 & K2 & _ & S2 & R2 & _).
+      assert (P2 : PI c2 s2) by (destruct I2 as [-> | ->]; exact R2).
+      pose proof (TFrame_poll_expired s2) as F3. rewrite H3 in F3. cbn [snd] in F3.
+      pose proof (trk_flush _ _ _ _ _ H4 (trk_T _ _ _ _ F3 K2) ltac:(lia)) as K4.
+      eexists. split; [exact K4|].
+      assert (P4 : PI c2 s4).
+      { eapply PI_X; [eapply XFrame_do_flush, H4|]. eapply PI_T; eassumption. }
+      destruct P4 as [HF HQ].
+      destruct x; cbn [flush_res c_step snd failed dirty last_flush_pending closed].
+      + split; [|left; reflexivity]. constructor; cbn [failed closed]; auto.
+      + reflexivity.
+      + split; [|right; reflexivity]. constructor; cbn [failed closed]; auto.
+  Qed.
+
+  Lemma pr_c14 s r s' c0 c :
+    pump_read tp s = (r, s') -> Trk c0 s c -> PI c s -> (streak c = 0%nat \/ fused s = false) ->
+    exists c', Trk c0 s' c' /\ PI c' s' /\ streak c' = 0%nat /\
+      (forall a, r = PErr a -> rfailed c' = true) /\
+      (r = PSome tt \/ r = PPend -> fused s' = false).
+  Proof.
+    intros H K P HS. apply pump_read_inv in H. destruct H as (x & s1 & H1 & -> & ->).
+    pose proof (XFrame_do_next _ _ _ _ H1) as F1.
+    destruct (do_next_eq _ _ _ _ H1) as [(Hf & -> & ->)|(Hf & E)].
+    - exists c. split; [exact K|]. split; [exact P|].
+      split; [destruct HS; congruence|]. split; [discriminate|].
+      cbn [read_res]. intros [X|X]; discriminate.
+    - pose proof (trk_next _ _ _ _ _ H1 K Hf) as K1.
+      assert (P1 : PI (snd (cstep c (CNext x))) s1).
+      { destruct (PI_X _ _ _ F1 P) as [A B]. constructor; cbn [c_step snd failed closed]; auto. }
+      assert (Ef : fused s1 = match x with REof => true | _ => false end) by (rewrite E; reflexivity).
+      eexists. split.
+      { destruct x; try exact K1. eapply trk_T; [apply TFrame_complete|exact K1]. }
+      split.
+      { destruct x; try exact P1. eapply PI_T; [apply TFrame_complete|exact P1]. }
+      split; [reflexivity|].
+      split.
+      + intros a Ha. destruct x; try discriminate. reflexivity.
+      + intros [X|X]; destruct x; try discriminate; try exact Ef.
+        rewrite (fused_T _ _ (TFrame_complete s1 x)). exact Ef.
+  Qed.
+
+  Lemma rl_c14 f s r s' c0 c :
+    run_loop tp f s = (r, s') -> Trk c0 s c -> PI c s -> (streak c = 0%nat \/ fused s = false) ->
+    exists c', Trk c0 s' c' /\
+      match r with
+      | RunErr _ => failed c' = true \/ rfailed c' = true
+      | RunPending => PI c' s' /\ (dirty c' = false \/ last_flush_pending c' = true)
+      | _ => PI c' s'
+      end.
+  Proof.
+    revert s c. induction f as [|f IH]; intros s c H K P HS.
+    - cbn [run_loop] in H. injection H as <- <-. exists c. auto.
+    - apply run_loop_inv in H.
+      destruct H as [a s1 H1|rd s1 a s2 H1 N1 H2|s1 wr s2 H1 H2 N2|rd s1 s2 H1 D1 H2 L2
+                    |s1 wr s2 H1 H2 D2|rd s1 wr s2 r s3 H1 H2 D H3].
+      + destruct (pr_c14 _ _ _ _ _ H1 K P HS) as (c1 & K1 & P1 & S1 & E1 & _).
+        exists c1. split; [exact K1|]. right. eapply E1; reflexivity.
+      + destruct (pr_c14 _ _ _ _ _ H1 K P HS) as (c1 & K1 & P1 & S1 & _ & _).
+        destruct (pw_c14 _ _ _ _ _ H2 K1 P1 S1) as (c2 & K2 & R2).
+        exists c2. split; [exact K2|]. left; exact R2.
+      + destruct (pr_c14 _ _ _ _ _ H1 K P HS) as (c1 & K1 & P1 & S1 & _ & _).
+        destruct (pw_c14 _ _ _ _ _ H2 K1 P1 S1) as (c2 & K2 & R2).
+        exists c2. split; [exact K2|].
+        destruct wr as [u| | |a]; try apply R2. exfalso. eapply N2; reflexivity.
+      + destruct (pr_c14 _ _ _ _ _ H1 K P HS) as (c1 & K1 & P1 & S1 & _ & _).
+        destruct (pw_c14 _ _ _ _ _ H2 K1 P1 S1) as (c2 & K2 & R2 & _).
+        exists c2. auto.
+      + destruct (pr_c14 _ _ _ _ _ H1 K P HS) as (c1 & K1 & P1 & S1 & _ & _).
+        destruct (pw_c14 _ _ _ _ _ H2 K1 P1 S1) as (c2 & K2 & R2).
+        exists c2. split; [exact K2|].
+        destruct D2 as [-> |[-> _]]; [exact R2|]. destruct R2 as [R2 R3]. split; [exact R2|].
+        left; exact R3.
+      + destruct (pr_c14 _ _ _ _ _ H1 K P HS) as (c1 & K1 & P1 & S1 & _ & E1).
+        destruct (pw_c14 _ _ _ _ _ H2 K1 P1 S1) as (c2 & K2 & R2).
+        assert (Hf : fused s2 = false).
+        { rewrite (fused_pump_write _ _ _ _ H2). apply E1. destruct D as [[-> _]|[-> _]]; auto. }
+        assert (P2 : PI c2 s2).
+        { destruct D as [[_ [-> |[-> |[-> _]]]]|[_ ->]]; apply R2. }
+        eapply IH; [exact H3|exact K2|exact P2|right; exact Hf].
+  Qed.
+
+  (* ---------------------------------------------------------------- between polls *)
+  Record GL c s : Prop := {
+    g_failed : failed c = true -> terminal s <> None;
+    g_term : terminal s <> None -> failed c || rfailed c = true;
+    g_closed : closed c = true -> terminal s <> None \/ Quiet s }.
+  (* the dispatch future has completed or was dropped: PollDispatch is a no-op from now on *)
+  Definition inactive s : bool :=
+    match finished s, dropped s with None, false => false | _, _ => true end.
+  Definition GI c s : Prop := inactive s = true \/ GL c s.
+
+  Definition creset c : cst :=
+    {| licensed := licensed c; closed := closed c; failed := failed c; rfailed := rfailed c;
+       dirty := dirty c; last_flush_pending := false; streak := 0 |}.
+
+  Lemma c_poll_unfold c l p :
+    c_poll fatal_cancel c (l, p) =
+    let '(ok, c1) := ccalls (creset c) l in
+    (ok && (negb p || negb (dirty c1) || last_flush_pending c1 || failed c1 || rfailed c1), c1).
+  Proof. reflexivity. Qed.
+
+  Lemma idle_ok_failed p d l f r : f || r = true -> negb p || negb d || l || f || r = true.
+  Proof. destruct p, d, l, f, r; cbn; auto. Qed.
+  Lemma idle_ok_flushed p d l f r : d = false \/ l = true -> negb p || negb d || l || f || r = true.
+  Proof. destruct p, d, l, f, r; cbn; intros [H|H]; auto. Qed.
+
+  Lemma GL_of_PI c s : PI c s -> terminal s = None -> GL c s.
+  Proof.
+    intros [A B] E. constructor.
+    - congruence.
+    - congruence.
+    - intro H. right. apply B, H.
+  Qed.
+  Lemma GL_term c s a : terminal s = Some a -> failed c || rfailed c = true -> GL c s.
+  Proof. intros E H. constructor; intros; try left; congruence. Qed.
+
+  Lemma pd_c14 fuel s r s1 c :
+    plog s = [] -> GL c s -> poll_dispatch tp fuel s = (r, s1) ->
+    exists c2, c_poll fatal_cancel c (plog s1, is_pending r) = (true, c2) /\ GL c2 s1.
+  Proof.
+    intros Hp G. unfold poll_dispatch. destruct (terminal s) as [a|] eqn:Et.
+    - destruct (shut_down s a) as [b s'] eqn:Es.
+      pose proof (IFrame_shut_down s a) as F. rewrite Es in F. cbn [snd] in F.
+      assert (Hf : failed c || rfailed c = true) by (apply G; congruence).
+      assert (E : terminal s' = Some a) by (rewrite (pf_terminal _ _ (if_p _ _ F)); exact Et).
+      assert (R : forall p, c_poll fatal_cancel c (plog s', p) = (true, creset c)).
+      { intro p. rewrite c_poll_unfold, (if_plog _ _ F), Hp. cbn [c_calls creset dirty failed rfailed
+          last_flush_pending]. rewrite idle_ok_failed by exact Hf. reflexivity. }
+      intro H. exists (creset c).
+      assert (s1 = s') by (destruct b; congruence). subst s1.
+      split; [apply R|]. eapply GL_term; [exact E|exact Hf].
+    - destruct (run_loop tp fuel s) as [rr s'] eqn:Er.
+      assert (K : Trk (creset c) s (creset c)) by (unfold Trk; rewrite Hp; reflexivity).
+      assert (P : PI (creset c) s).
+      { constructor; cbn [creset failed closed].
+        - destruct (failed c) eqn:E; [|reflexivity]. exfalso. apply (g_failed _ _ G); auto.
+        - intro H. destruct (g_closed _ _ G H) as [X|X]; [congruence|exact X]. }
+      destruct (rl_c14 _ _ _ _ _ _ Er K P (or_introl eq_refl)) as (c' & K' & R').
+      assert (Et' : terminal s' = None).
+      { rewrite (pf_terminal _ _ (PFrame_run_loop _ _ _ _ _ Er)). exact Et. }
+      unfold Trk in K'.
+      destruct rr as [|a| |].
+      + intros [= <- <-]. exists c'. rewrite c_poll_unfold, K'. split; [reflexivity|].
+        apply GL_of_PI; assumption.
+      + destruct (shut_down (upd_term s' (Some a)) a) as [b s3] eqn:Es.
+        pose proof (IFrame_shut_down (upd_term s' (Some a)) a) as F. rewrite Es in F. cbn [snd] in F.
+        assert (Hf : failed c' || rfailed c' = true).
+        { destruct R' as [-> | ->]; [reflexivity|apply orb_true_r]. }
+        assert (E : terminal s3 = Some a) by (rewrite (pf_terminal _ _ (if_p _ _ F)); reflexivity).
+        assert (Epl : plog s3 = plog s') by (rewrite (if_plog _ _ F); reflexivity).
+        intro H. exists c'.
+        assert (s1 = s3) by (destruct b; congruence). subst s1.
+        split; [|eapply GL_term; eassumption].
+        rewrite c_poll_unfold, Epl, K'. rewrite idle_ok_failed by exact Hf. reflexivity.
+      + intros [= <- <-]. exists c'. rewrite c_poll_unfold, K'. destruct R' as [R1 R2].
+        rewrite idle_ok_flushed by exact R2. split; [reflexivity|].
+        apply GL_of_PI; assumption.
+      + intros [= <- <-]. exists c'. rewrite c_poll_unfold, K'. split; [reflexivity|].
+        apply GL_of_PI; assumption.
+  Qed.
+
+  (* ---------------------------------------------------------------- the other ops *)
+  Lemma filter_nil_all {A} (f : A -> bool) l x : filter f l = [] -> In x l -> f x = false.
+  Proof.
+    induction l as [|y r IH]; cbn; [tauto|].
+    destruct (f y) eqn:E; [discriminate|]. intros H [->|Hin]; auto.
+  Qed.
+  Lemma senders0_handle s h : senders s = 0%nat -> nth_error (handles s) h <> Some true.
+  Proof.
+    unfold senders. intros H E. apply nth_error_In in E.
+    assert (F : filter (fun b : bool => b) (handles s) = []).
+    { destruct (filter _ (handles s)); [reflexivity|cbn in H; lia]. }
+    pose proof (filter_nil_all _ _ _ F E). discriminate.
+  Qed.
+  Lemma senders0_call s i k :
+    senders s = 0%nat -> nth_error (calls s) i = Some k -> live_phase (c_phase k) = false.
+  Proof.
+    unfold senders. intros H E. apply nth_error_In in E.
+    assert (F : filter (fun k0 : call => live_phase (c_phase k0)) (calls s) = []).
+    { destruct (filter _ (calls s)); [reflexivity|cbn in H; lia]. }
+    exact (filter_nil_all _ _ _ F E).
+  Qed.
+
+  Lemma quiet_poll_call s i : Quiet s -> poll_call s i = (CNothing, s).
+  Proof.
+    intros (Q & _). unfold poll_call. destruct (nth_error (calls s) i) as [k|] eqn:E; [|reflexivity].
+    pose proof (senders0_call _ _ _ Q E) as L. destruct (c_phase k); try discriminate; reflexivity.
+  Qed.
+  Lemma quiet_guard_close s i : Quiet s -> guard_close s i = s.
+  Proof.
+    intros (Q & _). unfold guard_close. destruct (nth_error (calls s) i) as [k|] eqn:E; [|reflexivity].
+    pose proof (senders0_call _ _ _ Q E) as L. destruct (c_phase k); try discriminate; reflexivity.
+  Qed.
+  Lemma quiet_guard_cancel s i : Quiet s -> guard_cancel s i = s.
+  Proof.
+    intros (Q & _). unfold guard_cancel. destruct (nth_error (calls s) i) as [k|] eqn:E; [|reflexivity].
+    pose proof (senders0_call _ _ _ Q E) as L. destruct (c_phase k); try discriminate; reflexivity.
+  Qed.
+
+  Variable fuel_of : cstate -> nat.
+
+  Lemma quiet_step s o s' os :
+    Quiet s -> step tp fuel_of s o = (s', os) -> o <> PollDispatch -> o <> DropDispatch -> Quiet s'.
+  Proof.
+    intros Q H N1 N2. pose proof Q as (Q1 & Q2 & Q3).
+    destruct o; cbn [step] in H; try congruence.
+    - injection H as <- _. pose proof (senders0_handle s h Q1).
+      destruct (nth_error _ _) as [[|]|]; congruence.
+    - injection H as <- _. pose proof (senders0_handle s h Q1).
+      destruct (nth_error _ _) as [[|]|]; congruence.
+    - injection H as <- _. pose proof (senders0_handle s h Q1) as N.
+      assert (E : match nth_error (handles s) h with Some true => PNew | _ => PGone end = PGone).
+      { destruct (nth_error _ _) as [[|]|]; congruence. }
+      rewrite E. unfold Quiet, senders in *. cbn [handles calls queue cancels upd_calls].
+      rewrite filter_app, app_length. cbn. split; [lia|auto].
+    - rewrite (quiet_poll_call s i Q) in H. injection H as <- _. exact Q.
+    - injection H as <- _. rewrite (quiet_guard_close s i Q), (quiet_guard_cancel s i Q).
+      destruct (option_map _ _) as [[]|]; exact Q.
+    - injection H as <- _. rewrite (quiet_guard_close s i Q).
+      destruct (option_map _ _) as [[]|]; exact Q.
+    - injection H as <- _. rewrite (quiet_guard_cancel s i Q). exact Q.
+    - injection H as <- _. exact Q.
+    - injection H as <- _. exact Q.
+  Qed.
+
+  Lemma GI_step_other c s o s' os :
+    GI c s -> step tp fuel_of s o = (s', os) -> o <> PollDispatch -> o <> DropDispatch -> GI c s'.
+  Proof.
+    intros G H N1 N2. pose proof (UFrame_step _ _ _ _ _ _ H N1 N2) as F.
+    destruct G as [G|G].
+    - left. unfold inactive in *. rewrite (uf_finished _ _ F), (uf_dropped _ _ F). exact G.
+    - right. destruct G as [G1 G2 G3]. constructor; rewrite (uf_terminal _ _ F); auto.
+      intro HC. destruct (G3 HC) as [X|X]; [left; exact X|right].
+      eapply quiet_step; eassumption.
+  Qed.
+
+  (* ---------------------------------------------------------------- the monitor side *)
+  Lemma m_contract_rec_op (m : mst) (o : op (T := T)) : m_contract (rec_op m o) = m_contract m.
+  Proof.
+    destruct o; cbn [rec_op]; try reflexivity;
+      repeat match goal with
+             | |- context [match ?x with _ => _ end] => destruct x
+             | |- context [if ?x then _ else _] => destruct x
+             end; reflexivity.
+  Qed.
+  Lemma m_contract_rec_call m x : m_contract (rec_call m x) = m_contract m.
+  Proof. destruct x as [r|[] r|r|r|[]]; reflexivity. Qed.
+  Lemma chk_calls_c14 maxif l : forall m,
+    m_contract (snd (chk_calls maxif m l)) = m_contract m /\ v14 (fst (chk_calls maxif m l)) = true.
+  Proof.
+    induction l as [|x r IH]; intro m; cbn [chk_calls]; [split; reflexivity|].
+    specialize (IH (rec_call m x)). destruct (chk_calls maxif (rec_call m x) r) as [v' m'].
+    cbn [fst snd] in *. destruct IH as [IH1 IH2]. rewrite IH1, m_contract_rec_call.
+    split; [reflexivity|]. cbn [vand v14]. rewrite IH2.
+    destruct x as [r0|[] r0|r0|r0|[]]; reflexivity.
+  Qed.
+
+  Lemma step_c14 maxif s o s' os m :
+    GI (m_contract m) s -> step tp fuel_of s o = (s', os) ->
+    v14 (fst (chk_obs maxif o m os)) = true /\ GI (m_contract (snd (chk_obs maxif o m os))) s'.
+  Proof.
+    intros G H.
+    assert (Easy : o <> PollDispatch -> o <> DropDispatch -> os = [] ->
+                   v14 (fst (chk_obs maxif o m os)) = true /\
+                   GI (m_contract (snd (chk_obs maxif o m os))) s').
+    { intros N1 N2 ->. pose proof (GI_step_other _ _ _ _ _ G H N1 N2) as G'.
+      unfold chk_obs. destruct o; cbn [fst snd]; try congruence;
+        rewrite m_contract_rec_op; split; try reflexivity; exact G'. }
+    destruct o; try (apply Easy; try discriminate; cbn [step] in H; congruence).
+    - (* PollCall *)
+      pose proof (GI_step_other _ _ _ _ _ G H ltac:(discriminate) ltac:(discriminate)) as G'.
+      cbn [step] in H. destruct (poll_call s i) as [r s1]. injection H as <- <-.
+      unfold chk_obs. destruct r; cbn [fst snd m_contract upd_m]; rewrite ?m_contract_rec_op;
+        split; try reflexivity; exact G'.
+    - (* PollDispatch *)
+      clear Easy. cbn [step] in H. unfold chk_obs.
+      destruct (finished s) eqn:Ef; [injection H as <- <-; cbn [fst snd];
+        rewrite m_contract_rec_op; split; [reflexivity|exact G]|].
+      destruct (dropped s) eqn:Ed; [injection H as <- <-; cbn [fst snd];
+        rewrite m_contract_rec_op; split; [reflexivity|exact G]|].
+      destruct G as [G|G]; [unfold inactive in G; rewrite Ef, Ed in G; discriminate|].
+      set (s0 := upd_tr s (tr s) (fused s) []) in *.
+      assert (G0 : GL (m_contract m) s0).
+      { destruct G as [G1 G2 G3]. constructor; [exact G1|exact G2|exact G3]. }
+      destruct (poll_dispatch tp (fuel_of s0) s0) as [r s1] eqn:Ep.
+      destruct (pd_c14 (fuel_of s0) s0 r s1 _ (eq_refl : plog s0 = []) G0 Ep) as (c2 & Ec & G2).
+      injection H as <- <-. cbn [app gauges].
+      pose proof (chk_calls_c14 maxif (plog s1) (rec_op (T := T) m PollDispatch)) as [C1 C2].
+      destruct (chk_calls maxif (rec_op (T := T) m PollDispatch) (plog s1)) as [v m2]. cbn [fst snd] in C1, C2.
+      rewrite C1, m_contract_rec_op, Ec. cbn [fst snd vand v14 m_contract upd_m].
+      rewrite C2. split; [reflexivity|].
+      destruct r as [d| |].
+      + left. reflexivity.
+      + right. destruct G2 as [A B C]. constructor; [exact A|exact B|exact C].
+      + right. destruct G2 as [A B C]. constructor; [exact A|exact B|exact C].
+    - (* DropDispatch *)
+      cbn [step] in H. injection H as <- <-. unfold chk_obs. cbn [fst snd].
+      rewrite m_contract_rec_op. split; [reflexivity|]. left.
+      destruct (dropped s) eqn:Ed; unfold inactive.
+      + rewrite Ed. destruct (finished s); reflexivity.
+      + unfold drop_dispatch. cbn [dropped upd_fin finished]. destruct (finished _); reflexivity.
+  Qed.
+
+  Lemma run_c14 maxif ops : forall s m,
+    GI (m_contract m) s -> v14 (chk_run maxif m ops (fst (run_from tp fuel_of s ops))) = true.
+  Proof.
+    induction ops as [|o r IH]; intros s m G; cbn [run_from]; [reflexivity|].
+    destruct (step tp fuel_of s o) as [s1 l] eqn:Es.
+    destruct (step_c14 maxif _ _ _ _ m G Es) as [V G'].
+    specialize (IH s1 (snd (chk_obs maxif o m l)) G').
+    destruct (run_from tp fuel_of s1 r) as [ls s2]. cbn [fst chk_run] in *.
+    destruct (chk_obs maxif o m l) as [v m']. cbn [fst snd] in *.
+    cbn [vand v14]. rewrite V, IH. reflexivity.
+  Qed.
 End C14.
+
+Theorem c14_holds {T : Type} : @stmt_c14 T.
+Proof.
+  unfold stmt_c14, c14_ok, monitors, client_trace. intros tp fuel_of t0 qcap maxif ops.
+  apply run_c14. right. constructor; cbn; intros; try discriminate. congruence.
+Qed.
+Print Assumptions c14_holds.
